@@ -206,12 +206,16 @@ def proper(a, b):
     return a[0] < b[2] and b[0] < a[2] and a[1] < b[3] and b[1] < a[3]
 
 
-def build_plane(bounds, grid, hist):
+def build_plane(bounds, grid, hist, observe=None):
+    """observe=k: look at the plane (iteration, len, repr, one find) once, just before operation k - an observation must not
+    change what later operations and observations see (added after seeded defect C20_15, a stale iteration snapshot, was missed)"""
     objs = {n: Box(n, *c) for (n, *c) in BOXES}
     pl = utils.Plane(bounds, gridsize=grid)
     live = []
     pl._verif_errors = []  # exceptions raised by add/remove on legal calls (judged in check_plane)
-    for op, n in hist:
+    for k, (op, n) in enumerate(hist):
+        if observe == k:
+            list(pl), len(pl), repr(pl), list(pl.find(bounds))
         try:
             if op == "add":
                 pl.add(objs[n])
@@ -348,6 +352,17 @@ def run_index(bounds, grid, first, depth, st):
     def check(state, h):
         check_plane(bounds, grid, state, h, st)
         st.traces += 1
+        # the same history with ONE observation at any earlier point must end in the same observable state
+        pl1 = state[0]
+        exp = ([o.name for o in pl1], len(pl1), sorted(o.name for o in pl1.find(bounds)))
+        for k in range(1, len(h)):
+            pl2, objs2, live2 = build_plane(bounds, grid, h, observe=k)
+            got = ([o.name for o in pl2], len(pl2), sorted(o.name for o in pl2.find(bounds)))
+            st.transitions += len(h)
+            if got != exp or got[0] != live2:
+                st.violation("C20/plane-observation-changes-state", {"kind": "plane", "bounds": bounds, "grid": grid, "hist": list(h), "observed": k}, exp, got,
+                             "looking at the plane between two operations changes what is seen afterwards")
+                break
 
     r = bfs([("add", first)], enabled, build, canon_plane, check, depth - 1)
     st.states += r["states"]
@@ -409,6 +424,13 @@ def replay(case):
         hist = tuple(tuple(x) for x in case["hist"])
         state = build_plane(tuple(case["bounds"]), case["grid"], hist)
         check_plane(tuple(case["bounds"]), case["grid"], state, hist, st)
+        if case.get("observed"):
+            b = tuple(case["bounds"])
+            pl2, _, live2 = build_plane(b, case["grid"], hist, observe=case["observed"])
+            got = ([o.name for o in pl2], len(pl2), sorted(o.name for o in pl2.find(b)))
+            exp = ([o.name for o in state[0]], len(state[0]), sorted(o.name for o in state[0].find(b)))
+            if got != exp or got[0] != live2:
+                st.violation("C20/plane-observation-changes-state", case, exp, got, "observation changes state")
     elif k == "pair":
         i, j = POOL.index(tuple(case["m1"])), POOL.index(tuple(case["m0"]))
         algebra_pair(i, j, st)
